@@ -194,6 +194,32 @@ func colorMain(args []string) error {
 		v := rng.Intn(1 << 24)
 		find("random", tcell.NewHexColor(int32(v)), v, pal, pv)
 	}
+	// palette colours looked up in palettes that are not the identity: random RGB palettes longer than the index,
+	// a rotated xterm palette, and black/white (what a monochrome terminal asks for)
+	for i := 0; i < *nfind/8; i++ {
+		ci := rng.Intn(16)
+		if rng.Intn(3) == 0 {
+			ci = rng.Intn(256)
+		}
+		c, cv := tcell.PaletteColor(ci), lab.XtermRGB(ci)
+		var pal []tcell.Color
+		var pv []int
+		switch rng.Intn(3) {
+		case 0:
+			for j := 0; j < ci+1+rng.Intn(6); j++ {
+				v := rng.Intn(1 << 24)
+				pal, pv = append(pal, tcell.NewHexColor(int32(v))), append(pv, v)
+			}
+		case 1:
+			k, rot := []int{8, 16, 256}[rng.Intn(3)], 1+rng.Intn(7)
+			for j := 0; j < k; j++ {
+				pal, pv = append(pal, tcell.PaletteColor((j+rot)%k)), append(pv, lab.XtermRGB((j+rot)%k))
+			}
+		default:
+			pal, pv = []tcell.Color{tcell.ColorBlack, tcell.ColorWhite}, []int{lab.XtermRGB(0), lab.XtermRGB(15)}
+		}
+		find("palettecolour", c, cv, pal, pv)
+	}
 	find("empty", tcell.NewHexColor(0x123456), 0x123456, []tcell.Color{}, []int{})
 	// FromImageColor on opaque colours with 16-bit channels: the 8-bit value of a channel is its high byte, as the
 	// image/color models convert (a tcell colour holds 8 bits per channel)
